@@ -483,6 +483,15 @@ def r_grid(ctx, a):
     _cmp_padded(ctx, 'to_modal', m1, m0, float(np.abs(y0).sum(axis=(1, 2)).max()) + 1)
     d0 = np.asarray(g0.d_dlon(jnp.asarray(x0))); d1 = np.asarray(g1.d_dlon(jnp.asarray(x1)))
     _cmp_padded(ctx, 'd_dlon', d1, d0, float(np.abs(x0).max() * a['L']) + 1)
+    # all field ranks the code supports: 3-D (levels, m, l), surface (1, m, l) and plain 2-D (m, l)
+    for tag, sl in (('2-D field', 0), ('surface field', slice(0, 1))):
+        e0 = np.asarray(g0.d_dlon(jnp.asarray(x0[sl]))); e1 = np.asarray(g1.d_dlon(jnp.asarray(x1[sl])))
+        _cmp_padded(ctx, 'd_dlon (%s)' % tag, e1, e0, float(np.abs(x0).max() * a['L']) + 1)
+        f0 = np.asarray(g0.to_nodal(jnp.asarray(x0[sl]))); f1 = np.asarray(g1.to_nodal(jnp.asarray(x1[sl])))
+        _cmp_padded(ctx, 'to_nodal (%s)' % tag, f1, f0, 4 * float(np.abs(x0).sum(axis=(1, 2)).max()) + 1)
+        for name in ('cos_lat_d_dlat', 'laplacian'):
+            r0 = np.asarray(getattr(g0, name)(jnp.asarray(x0[sl]))); r1 = np.asarray(getattr(g1, name)(jnp.asarray(x1[sl])))
+            _cmp_padded(ctx, '%s (%s)' % (name, tag), r1, r0, float(np.abs(r0).max()) * 4 + 1, pad_zero=(name != 'cos_lat_d_dlat'))
     M1 = g1.modal_shape[0]
     for (idx, col), (_, dcol) in zip(util.columns(x1, 1), util.columns(d1, 1)):
         if idx[1] < 2:     # two columns per level are enough (each costs a model call)
